@@ -361,7 +361,9 @@ func c20(tier string, args []string) int {
 				try("message.data", func(x *types.ReDKG) { x.Messages[mi].Data = bump(x.Messages[mi].Data, how) })
 				try("message.signature", func(x *types.ReDKG) { x.Messages[mi].Signature = bump(x.Messages[mi].Signature, how) })
 				try("message.sender", func(x *types.ReDKG) { x.Messages[mi].SenderAddr = string(bump([]byte(x.Messages[mi].SenderAddr), how)) })
-				try("message.recipient", func(x *types.ReDKG) { x.Messages[mi].RecipientAddr = string(bump([]byte(x.Messages[mi].RecipientAddr+"r"), how)) })
+				try("message.recipient", func(x *types.ReDKG) {
+					x.Messages[mi].RecipientAddr = string(bump([]byte(x.Messages[mi].RecipientAddr+"r"), how))
+				})
 				try("message.event", func(x *types.ReDKG) { x.Messages[mi].Event = string(bump([]byte(x.Messages[mi].Event), how)) })
 				try("message.offset", func(x *types.ReDKG) { x.Messages[mi].Offset += uint64(how + 1) })
 			}
